@@ -74,18 +74,10 @@ def run(ctx):
 
 
 def g10(ctx, F):
-    from . import p02, surgery
+    from . import p02
     from .p16 import relabel
-    fn = F.fn(p02.PUSH)
     before, nv = len(ctx.instances), len(ctx.violations)
-    try:
-        ex, arms = surgery.extract(fn, F)
-    except surgery.Extraction as e:
-        ctx.check("C01.G10", "extraction", False, fn=p02.PUSH, file=fn["file"], nontrivial=False,
-                  what="Game::push is not extractable, the castling-right premise of G5 cannot be decided: %s" % e)
-        return
-    p02.r2(ctx, F, fn, arms)
-    p02.r3(ctx, F, fn, arms)
+    p02.r123(ctx, F, rules=("R2", "R3"))
     relabel(ctx, before, nv, "C01.G10")
 
 
